@@ -112,7 +112,15 @@ func (ss *segmentStack) get(key []byte, segStart int, base *segmentStack,
 	}
 
 	if base != nil {
-		return base.Get(key, readOptions)
+		// The base stack was captured together with this stack (under
+		// the collection lock), so what lies below the base's segments
+		// is this stack's lower level snapshot; the base's own (and in
+		// particular those of its child collection stacks, which are
+		// not refreshed when the base is handed to the persister) may
+		// be older and lack entries persisted in the meantime.
+		chain := &segmentStack{options: base.options, a: base.a,
+			lowerLevelSnapshot: ss.lowerLevelSnapshot}
+		return chain.get(key, len(chain.a)-1, nil, readOptions)
 	}
 
 	if !readOptions.SkipLowerLevel && ss.lowerLevelSnapshot != nil {
